@@ -13,6 +13,14 @@ theorem forIn_some_yield {α β : Type} (l : List α) (f : β → α → β) (s 
   | nil => rfl
   | cons a l ih => simp [ih]
 
+/-- the same when the step is only known on states satisfying an invariant `I` (e.g. "below 2^16") -/
+theorem forIn_some_yield_inv {α β : Type} (I : β → Prop) (l : List α) (g : β → α → Option β) (f : β → α → β)
+    (hg : ∀ s a, I s → g s a = some (f s a)) (hI : ∀ s a, I s → I (f s a)) (s : β) (hs : I s) :
+    forIn l s (fun a s => (g s a).bind (fun x => some (ForInStep.yield x))) = some (l.foldl f s) := by
+  induction l generalizing s with
+  | nil => rfl
+  | cons a l ih => simp [hg s a hs, ih (f s a) (hI s a hs)]
+
 /-- the same in the `Id` monad -/
 theorem forIn_id_yield {α β : Type} (l : List α) (f : β → α → β) (s : β) :
     (forIn l s (fun a s => (pure (ForInStep.yield (f s a)) : Id _))) = (pure (l.foldl f s) : Id _) := by
